@@ -11,10 +11,11 @@ NOT_CLAIMED = {}   # property -> reason, filled by hand for properties deliberat
 def main():
     props = [json.loads(l) for l in open(os.path.join(VERIF, "properties.jsonl"))]
     checks, na, engines = [], [], {}
+    ready = set(open(os.path.join(VERIF, "tools", "ready.txt")).read().split())
     for p in props:
         pid = p["id"]
         path = os.path.join(VERIF, "checks", pid.lower() + ".py")
-        if not os.path.exists(path) or pid in NOT_CLAIMED:
+        if not os.path.exists(path) or pid in NOT_CLAIMED or pid not in ready:
             na.append({"property_id": pid, "reason": NOT_CLAIMED.get(pid, "no bounded-exhaustive check built for this property yet; nothing is claimed for it")})
             continue
         mod = importlib.import_module("checks." + pid.lower())
